@@ -24,7 +24,7 @@ CHECKS = {
     ),
 }
 
-EEMS_NOTE = BASE_NOTE + (" Arithmetic is exact rationals in the model; a float result within 1e-9 (relative) of a rational with denominator <= 20000 is identified with it; "
+EEMS_NOTE = BASE_NOTE + (" Arithmetic is exact rationals in the model; a float result within 1e-9 (relative) of a rational with denominator <= 1 000 000 is identified with it; "
                          "commands are driven through execute() with finished producer commands (the full pipeline is C02's subject).")
 CHECKS.update({
     "C03": dict(engine="eems", technique="TLC: MaskRule invariant on EEMSOps.tla over EEMSCases families + TLC validation (EEMSOpsTrace.tla) of every observed result mask; payload variants compared bit-for-bit",
